@@ -33,7 +33,10 @@ CanStep(t) == TaskCanStepW(t, FALSE)
 IdleReason(prefix, a) ==
   IF act[a].mq # <<>> THEN prefix \o "deq." \o Head(act[a].mq).src
   ELSE IF act[a].stream /\ (act[a].sq.ready > 0 \/ act[a].sq.ended) /\ ChanOpen(a) THEN prefix \o "stream"
-  ELSE IF act[a].stream THEN prefix \o "closed.stream" ELSE prefix \o "closed"
+  ELSE IF act[a].stream THEN prefix \o "closed.stream"
+  ELSE IF \E b \in Actor : a \in act[b].subs THEN prefix \o "closed.subscribed"       \* a broker subscription is all that is left
+  ELSE IF \E i \in DOMAIN tmr : tmr[i].a = a /\ tmr[i].st \notin {"ended", "aborted"} THEN prefix \o "closed.timers"   \* ... or its own timers
+  ELSE prefix \o "closed"
 HeldAsChild(a) == \E p \in Actor : ~Terminated(p) /\ \E i \in 1..Len(act[p].kids) : act[p].kids[i].a = a
 
 TInit == EmptyInit /\ l = 1 /\ TLCSet(2, {}) /\ TLCSet(3, 1)
